@@ -1,4 +1,4 @@
-import PoxModel.Proofs.MatchCanon
+import PoxModel.Proofs.PackedMatch
 import PoxModel.Proofs.FlowMod
 set_option linter.unusedSimpArgs false
 /-! Refinement of the flow-mod state machine (`Model/FlowMod.lean`) to the OpenFlow 1.0 flow table (`Spec/OF10Table.lean`):
@@ -27,7 +27,7 @@ def absOut : Out → SOut
       { mtch := m.wire, cookie := m.cookie, priority := m.priority, reason := m.reason,
         durSec := m.durSec, durNsec := m.durNsec, idle := m.idle, packets := m.packets, bytes := m.bytes }
   | .error t c => .error t c
-  | .packetIn p b => .packetIn p b
+  | .packetIn p b r => .packetIn p b r
   | .release id f a => .release id f a
   | .flowStats l => .flowStats (l.map absStat)
   | .aggStats p b n => .aggStats p b n
@@ -35,12 +35,13 @@ def absOut : Out → SOut
 /-! ## hypotheses on transmitted matches, by code variant -/
 
 /-- hypotheses on a transmitted match under which the code — in the variant `cfg` — treats it as the standard says.  Each clause
-    is needed only by the variant that lacks the corresponding repair (D38, D26 of C03; C04-2, C04-1); only `tos` (D36, open) is
-    unconditional.  For `/repo` with all repairs nothing but `tos` is left. -/
+    is needed only by the variant that lacks the corresponding repair (D38, D26, D36 of C03; C04-2, C04-1).  With every repair
+    nothing is left. -/
 structure WireOk (cfg : Cfg) (r : OfMatch) : Prop where
   /-- without D38: wildcarded dl_type / nw_proto fields do not look like prerequisites -/
   prereq : cfg.mv.prereqExact = false → PrereqExact r
-  tos : r.nwTos % 4 = 0
+  /-- without D36 (or with `==` as strict test, without C04-1): a ToS value that is compared carries no ECN bits -/
+  tos : cfg.tosDscp = false ∨ cfg.strictMutual = false → Spec.significant r Spec.W_NW_TOS = true → r.nwTos % 4 = 0
   /-- without D26: a flow that is exact under the prerequisite rule has no wildcard bit at all and is IPv4 TCP/UDP/ICMP -/
   exactL4 : cfg.mv.exactSig = false → Spec.exactSig r = true →
     Spec.exact r = true ∧ r.dlType = 0x0800 ∧ isL4Proto r.nwProto = true
@@ -50,72 +51,127 @@ structure WireOk (cfg : Cfg) (r : OfMatch) : Prop where
   hostSrc : cfg.strictMutual = false → Spec.srcIgn r < 32 → r.nwSrc % 2 ^ Spec.srcIgn r = 0
   hostDst : cfg.strictMutual = false → Spec.dstIgn r < 32 → r.nwDst % 2 ^ Spec.dstIgn r = 0
 
-/-- the record the code's comparisons are effectively made on: wildcarded prerequisite fields read as absent (D38), undefined
-    wildcard bits dropped (C04-2) -/
-def eff (cfg : Cfg) (r : OfMatch) : OfMatch := if cfg.maskUndefined then maskUndef (cfg.mv.pre r) else cfg.mv.pre r
+/-- the transmitted record with wildcarded prerequisite fields read as absent (D38) and undefined wildcard bits dropped (C04-2) -/
+def eff0 (cfg : Cfg) (r : OfMatch) : OfMatch := if cfg.maskUndefined then maskUndef (cfg.mv.pre r) else cfg.mv.pre r
 
-/-- the match object of a flow-mod is, for every test, HEAD's `unpack(flow_mod=True)` of the effective record -/
-theorem rx_same (cfg : Cfg) (r : OfMatch) : SameViews (rxMatch cfg r) (ofWire (eff cfg r)) := by
-  have hget : ∀ f, (cfg.mv.ofWire r).get f = r.get f := by intro f; cases f <;> rfl
-  have hwild : ∀ f, (ofWire (cfg.mv.pre r)).wild f = false → r.wild f = false := by
-    intro f hf
-    rw [ofWire_wild, Variant.pre_wild] at hf
+/-- … and the ToS byte as the comparison reads it (`d`: DSCP bits only, repair D36) -/
+def effD (d : Bool) (cfg : Cfg) (r : OfMatch) : OfMatch := tosNorm d (eff0 cfg r)
+
+
+theorem dscp_eq (cfg : Cfg) (m : OfMatch) : dscp cfg m = if cfg.tosDscp then dscpA m else m := by
+  unfold dscp dscpA dscpOf; rfl
+
+/-- the variant's `unpack(flow_mod=True)` is, for every test, HEAD's of the record with wildcarded prerequisite fields cleared -/
+theorem vofWire_same (v : Variant) (r : OfMatch) : SameViews (v.ofWire r) (ofWire (v.pre r)) := by
+  refine ⟨rfl, ?_, rfl, rfl⟩
+  intro f hf
+  have hf' : r.wild f = false := by
+    have e : (v.ofWire r).wild f = (ofWire (v.pre r)).wild f := rfl
+    rw [e, ofWire_wild, Variant.pre_wild] at hf
     simpa using (Bool.or_eq_false_iff.mp hf).1
-  unfold rxMatch eff
+  have hget : (v.ofWire r).get f = r.get f := by cases f <;> rfl
+  rw [hget, ofWire_get]
+  exact (Variant.pre_get v r f hf').symm
+
+/-- the match object of a flow-mod is, for every test, HEAD's `unpack(flow_mod=True)` of `eff0` -/
+theorem rx_same (cfg : Cfg) (r : OfMatch) : SameViews (rxMatch cfg r) (ofWire (eff0 cfg r)) := by
+  have hb := vofWire_same cfg.mv r
+  unfold rxMatch eff0
   cases hm : cfg.maskUndefined
-  · simp only [Bool.false_eq_true, if_false]
-    refine ⟨rfl, ?_, rfl, rfl⟩
-    intro f hf
-    rw [hget, ofWire_get]
-    exact (Variant.pre_get cfg.mv r f (hwild f hf)).symm
+  · simp only [Bool.false_eq_true, if_false]; exact hb
   · simp only [if_true]
     have hw : (cfg.mv.ofWire r).wildcards &&& FW_ALL = (ofWire (maskUndef (cfg.mv.pre r))).wildcards :=
       congrArg OfMatch.wildcards (ofWire_masked (cfg.mv.pre r))
-    refine ⟨hw, ?_, rfl, rfl⟩
+    refine ⟨hw, ?_, hb.s, hb.d⟩
     intro f hf
-    have hf' : (ofWire (cfg.mv.pre r)).wild f = false := by
-      have hb : f.bit < 22 := by cases f <;> decide
+    have hf' : (cfg.mv.ofWire r).wild f = false := by
+      have hbit : f.bit < 22 := by cases f <;> decide
       have e : FW_ALL = 2 ^ 22 - 1 := by decide
       have : ((cfg.mv.ofWire r).wildcards &&& FW_ALL).testBit f.bit = false := hf
       rw [Nat.testBit_and, e, Nat.testBit_two_pow_sub_one] at this
-      have h2 : (cfg.mv.ofWire r).wildcards.testBit f.bit = false := by simpa [hb] using this
+      have h2 : (cfg.mv.ofWire r).wildcards.testBit f.bit = false := by simpa [hbit] using this
       exact h2
-    show (cfg.mv.ofWire r).get f = _
-    rw [hget, ofWire_get]
-    show r.get f = (cfg.mv.pre r).get f
-    exact (Variant.pre_get cfg.mv r f (hwild f hf')).symm
+    have := hb.g f hf'
+    rw [ofWire_get] at this ⊢
+    exact this
 
-theorem core_eff {cfg : Cfg} {r : OfMatch} (h : WireOk cfg r) : MatchCore (eff cfg r) := by
-  have hp := Variant.prereq_pre cfg.mv r h.prereq
-  unfold eff
+theorem sig_tos_eff0 (cfg : Cfg) (r : OfMatch) :
+    Spec.significant (eff0 cfg r) Spec.W_NW_TOS = Spec.significant r Spec.W_NW_TOS ∧ (eff0 cfg r).nwTos = r.nwTos := by
+  unfold eff0
+  cases cfg.maskUndefined
+  · exact ⟨Variant.significant_pre cfg.mv r _, rfl⟩
+  · simp only [if_true]
+    exact ⟨by rw [significant_mask _ _ (by decide), Variant.significant_pre], rfl⟩
+
+theorem prereq_eff0 {cfg : Cfg} {r : OfMatch} (h : cfg.mv.prereqExact = false → PrereqExact r) : PrereqExact (eff0 cfg r) := by
+  have hp := Variant.prereq_pre cfg.mv r h
+  unfold eff0
+  cases cfg.maskUndefined
+  · exact hp
+  · exact prereq_mask _ hp
+
+/-- the match object as the variant's comparisons read it (`d`) is, for every test, `ofWire (effD d …)` -/
+theorem rx_sameD (d : Bool) (cfg : Cfg) (r : OfMatch) (h : cfg.mv.prereqExact = false → PrereqExact r) :
+    SameViews (if d then dscpA (rxMatch cfg r) else rxMatch cfg r) (ofWire (effD d cfg r)) := by
+  have h1 : SameViews (if d then dscpA (rxMatch cfg r) else rxMatch cfg r)
+      (if d then dscpA (ofWire (eff0 cfg r)) else ofWire (eff0 cfg r)) := by
+    cases d
+    · exact rx_same cfg r
+    · exact (rx_same cfg r).dscpA
+  exact h1.trans (tos_same d _ (prereq_eff0 h))
+
+theorem core_effD (d : Bool) {cfg : Cfg} {r : OfMatch} (h : WireOk cfg r)
+    (hd : d = false → Spec.significant r Spec.W_NW_TOS = true → r.nwTos % 4 = 0) : MatchCore (effD d cfg r) := by
+  obtain ⟨hs, ht⟩ := sig_tos_eff0 cfg r
+  refine ⟨prereq_tosNorm d _ (prereq_eff0 h.prereq), tosNorm_tos4 d _ (by rw [hs, ht]; exact hd), ?_⟩
+  show (tosNorm d (eff0 cfg r)).wildcards < 2 ^ 22
+  rw [(tosNorm_fields d _).1]
+  unfold eff0
   cases hm : cfg.maskUndefined
-  · exact ⟨hp, h.tos, h.width hm⟩
-  · exact matchCore_mask _ hp h.tos
+  · exact h.width hm
+  · exact maskUndef_width _
 
-theorem ok_eff {cfg : Cfg} {r : OfMatch} (h : WireOk cfg r) (hs : cfg.strictMutual = false) : MatchOk (eff cfg r) := by
-  refine { toMatchCore := core_eff h, hostSrc := ?_, hostDst := ?_ }
-  · unfold eff; cases cfg.maskUndefined
-    · simp only [Bool.false_eq_true, if_false, Variant.srcIgn_pre]; exact h.hostSrc hs
-    · simp only [if_true, srcIgn_mask, Variant.srcIgn_pre]; exact h.hostSrc hs
-  · unfold eff; cases cfg.maskUndefined
-    · simp only [Bool.false_eq_true, if_false, Variant.dstIgn_pre]; exact h.hostDst hs
-    · simp only [if_true, dstIgn_mask, Variant.dstIgn_pre]; exact h.hostDst hs
+theorem core_eff {cfg : Cfg} {r : OfMatch} (h : WireOk cfg r) : MatchCore (effD cfg.tosDscp cfg r) :=
+  core_effD cfg.tosDscp h (fun hd => h.tos (.inl hd))
 
-theorem matchHdr_eff (cfg : Cfg) (r : OfMatch) (h : Headers) : matchHdr (eff cfg r) h = matchHdr r h := by
-  unfold eff; cases cfg.maskUndefined <;> simp [matchHdr_mask, Variant.matchHdr_pre]
-theorem subsumes_eff (cfg : Cfg) (a b : OfMatch) : subsumes (eff cfg a) (eff cfg b) = subsumes a b := by
-  rw [Bool.eq_iff_iff, subsumes_forall, subsumes_forall]; simp only [matchHdr_eff]
-theorem subsumes_eff_right (cfg : Cfg) (a b : OfMatch) : subsumes a (eff cfg b) = subsumes a b := by
-  rw [Bool.eq_iff_iff, subsumes_forall, subsumes_forall]; simp only [matchHdr_eff]
-theorem identical_eff (cfg : Cfg) (a b : OfMatch) : identical (eff cfg a) (eff cfg b) = identical a b := by
-  simp only [identical, subsumes_eff]
-theorem overlaps_eff (cfg : Cfg) (a b : OfMatch) : overlaps (eff cfg a) (eff cfg b) = overlaps a b := by
-  rw [Bool.eq_iff_iff, overlaps_iff_exists, overlaps_iff_exists]; simp only [matchHdr_eff]
+theorem matchHdr_eff0 (cfg : Cfg) (r : OfMatch) (h : Headers) : matchHdr (eff0 cfg r) h = matchHdr r h := by
+  unfold eff0; cases cfg.maskUndefined <;> simp [matchHdr_mask, Variant.matchHdr_pre]
+theorem matchHdr_effD (d : Bool) (cfg : Cfg) (r : OfMatch) (h : Headers) : matchHdr (effD d cfg r) h = matchHdr r h := by
+  unfold effD; rw [matchHdr_tosNorm, matchHdr_eff0]
+theorem subsumes_effD (d : Bool) (cfg : Cfg) (a b : OfMatch) : subsumes (effD d cfg a) (effD d cfg b) = subsumes a b := by
+  rw [Bool.eq_iff_iff, subsumes_forall, subsumes_forall]; simp only [matchHdr_effD]
+theorem subsumes_effD_right (d : Bool) (cfg : Cfg) (a b : OfMatch) : subsumes a (effD d cfg b) = subsumes a b := by
+  rw [Bool.eq_iff_iff, subsumes_forall, subsumes_forall]; simp only [matchHdr_effD]
+theorem identical_effD (d : Bool) (cfg : Cfg) (a b : OfMatch) : identical (effD d cfg a) (effD d cfg b) = identical a b := by
+  simp only [identical, subsumes_effD]
+theorem overlaps_effD (d : Bool) (cfg : Cfg) (a b : OfMatch) : overlaps (effD d cfg a) (effD d cfg b) = overlaps a b := by
+  rw [Bool.eq_iff_iff, overlaps_iff_exists, overlaps_iff_exists]; simp only [matchHdr_effD]
+
+theorem srcIgn_eff0 (cfg : Cfg) (r : OfMatch) :
+    Spec.srcIgn (eff0 cfg r) = Spec.srcIgn r ∧ (eff0 cfg r).nwSrc = r.nwSrc ∧ Spec.dstIgn (eff0 cfg r) = Spec.dstIgn r ∧
+    (eff0 cfg r).nwDst = r.nwDst := by
+  unfold eff0
+  cases cfg.maskUndefined
+  · exact ⟨Variant.srcIgn_pre _ _, rfl, Variant.dstIgn_pre _ _, rfl⟩
+  · simp only [if_true]
+    exact ⟨by rw [srcIgn_mask, Variant.srcIgn_pre], rfl, by rw [dstIgn_mask, Variant.dstIgn_pre], rfl⟩
+
+theorem ok_effD_false {cfg : Cfg} {r : OfMatch} (h : WireOk cfg r) (hs : cfg.strictMutual = false) : MatchOk (effD false cfg r) := by
+  obtain ⟨s1, s2, s3, s4⟩ := srcIgn_eff0 cfg r
+  obtain ⟨t1, t2⟩ := srcIgn_tosNorm false (eff0 cfg r)
+  obtain ⟨_, _, _, sa, da⟩ := tosNorm_fields false (eff0 cfg r)
+  refine { toMatchCore := core_effD false h (fun _ => h.tos (.inr hs)), hostSrc := ?_, hostDst := ?_ }
+  · show Spec.srcIgn (tosNorm false (eff0 cfg r)) < 32 → (tosNorm false (eff0 cfg r)).nwSrc % 2 ^ Spec.srcIgn (tosNorm false (eff0 cfg r)) = 0
+    rw [t1, sa, s1, s2]; exact h.hostSrc hs
+  · show Spec.dstIgn (tosNorm false (eff0 cfg r)) < 32 → (tosNorm false (eff0 cfg r)).nwDst % 2 ^ Spec.dstIgn (tosNorm false (eff0 cfg r)) = 0
+    rw [t2, da, s3, s4]; exact h.hostDst hs
 
 /-- non-strict MODIFY / DELETE: the code's test is the standard's subsumption -/
 theorem rx_subsumes (cfg : Cfg) (a b : OfMatch) (ha : WireOk cfg a) (hb : WireOk cfg b) :
-    matchesWith true (rxMatch cfg a) (rxMatch cfg b) = subsumes a b := by
-  rw [(rx_same cfg a).matchesWith_left, (rx_same cfg b).matchesWith_right, subsumes_code _ _ (core_eff ha) (core_eff hb), subsumes_eff]
+    matchW cfg true (rxMatch cfg a) (rxMatch cfg b) = subsumes a b := by
+  unfold matchW
+  rw [dscp_eq, dscp_eq, (rx_sameD cfg.tosDscp cfg a ha.prereq).matchesWith_left, (rx_sameD cfg.tosDscp cfg b hb.prereq).matchesWith_right,
+    subsumes_code _ _ (core_eff ha) (core_eff hb), subsumes_effD]
 
 /-- strict commands and ADD's replacement: the code's test is the standard's "identical header fields" -/
 theorem rx_strict (cfg : Cfg) (e m : OfMatch) (he : WireOk cfg e) (hm : WireOk cfg m) :
@@ -123,28 +179,64 @@ theorem rx_strict (cfg : Cfg) (e m : OfMatch) (he : WireOk cfg e) (hm : WireOk c
   unfold strictMatch
   cases hs : cfg.strictMutual
   · simp only [Bool.false_eq_true, if_false]
-    rw [(rx_same cfg e).eqMatch_left, (rx_same cfg m).eqMatch_right, strict_iff _ _ (ok_eff he hs) (ok_eff hm hs), identical_eff]
+    have se := rx_sameD false cfg e he.prereq
+    have sm := rx_sameD false cfg m hm.prereq
+    simp only [Bool.false_eq_true, if_false] at se sm
+    rw [se.eqMatch_left, sm.eqMatch_right, strict_iff _ _ (ok_effD_false he hs) (ok_effD_false hm hs), identical_effD]
   · simp only [if_true]
-    rw [(rx_same cfg m).matchesWith_left, (rx_same cfg e).matchesWith_right, (rx_same cfg e).matchesWith_left,
-      (rx_same cfg m).matchesWith_right, mutual_iff _ _ (core_eff he) (core_eff hm), identical_eff]
+    rw [rx_subsumes cfg m e hm he, rx_subsumes cfg e m he hm, identical, Bool.and_comm]
 
 /-- CHECK_OVERLAP -/
 theorem rx_overlaps (cfg : Cfg) (a b : OfMatch) (ha : WireOk cfg a) (hb : WireOk cfg b) :
-    overlapsWith (rxMatch cfg a) (rxMatch cfg b) = overlaps a b := by
-  rw [(rx_same cfg a).overlapsWith_left, (rx_same cfg b).overlapsWith_right, overlaps_code _ _ (core_eff ha) (core_eff hb),
-    overlaps_eff]
+    overlapsWith (dscp cfg (rxMatch cfg a)) (dscp cfg (rxMatch cfg b)) = overlaps a b := by
+  rw [dscp_eq, dscp_eq, (rx_sameD cfg.tosDscp cfg a ha.prereq).overlapsWith_left, (rx_sameD cfg.tosDscp cfg b hb.prereq).overlapsWith_right,
+    overlaps_code _ _ (core_eff ha) (core_eff hb), overlaps_effD]
 
-/-- lookup: the entry accepts the frame iff the standard's matching does -/
+/-- lookup: the entry accepts the frame iff the standard's matching does.  The ECN bits of the frame's ToS byte matter only
+    without repair D36 and only to a flow that compares the ToS byte. -/
 theorem rx_accepts (cfg : Cfg) (r : OfMatch) (hr : WireOk cfg r) (p : PHdr) (port : Nat) (hp : cfg.mv.regular p = true)
-    (hpt : pktTos p % 4 = 0) :
-    matchesWith false (rxMatch cfg r) (cfg.mv.fromPacket p port) = matchHdr r (headers p port) := by
-  rw [(rx_same cfg r).matchesWith_left, ← matchHdr_eff cfg r]
-  exact wire_accepts (eff cfg r) _ _ (core_eff hr).prereq (core_eff hr).tos (extract_agreeG (!cfg.mv.arpLow8) p port hp hpt)
+    (hpt : cfg.tosDscp = true ∨ pktTos p % 4 = 0 ∨ Spec.significant r Spec.W_NW_TOS = false) :
+    matchW cfg false (rxMatch cfg r) (pktMatch cfg p port) = matchHdr r (headers p port) := by
+  have hcore := core_eff hr
+  have hL := rx_sameD cfg.tosDscp cfg r hr.prereq
+  have hfp : cfg.mv.fromPacket p port = fromHeaders (extractG (!cfg.mv.arpLow8) true p (some port)) := rfl
+  unfold matchW pktMatch
+  rw [hfp]
+  simp only [dscp_eq]
+  rw [hL.matchesWith_left, ← matchHdr_effD cfg.tosDscp cfg r]
+  cases hd : cfg.tosDscp
+  · simp only [Bool.false_eq_true, if_false]
+    rw [hd] at hcore
+    rcases hpt with h | h | h
+    · rw [hd] at h; cases h
+    · exact wire_accepts _ _ _ hcore.prereq hcore.tos (extract_agreeG _ p port hp h)
+    · -- the flow does not compare the ToS byte
+      have hw : (ofWire (effD false cfg r)).wild .nwTos = true := by
+        have hs : Spec.significant (effD false cfg r) Spec.W_NW_TOS = false := by
+          have h1 : Spec.significant (tosNorm false (eff0 cfg r)) Spec.W_NW_TOS = Spec.significant (eff0 cfg r) Spec.W_NW_TOS := by
+            obtain ⟨w, t, pr, _, _⟩ := tosNorm_fields false (eff0 cfg r)
+            simp only [Spec.significant, Spec.ipSpecified, Spec.nwSpecified, Spec.tpSpecified, Spec.dlTypeIs, Spec.wild, w, t, pr]
+          unfold effD; rw [h1, (sig_tos_eff0 cfg r).1]; exact h
+        have hcore' := core_effD false hr (fun _ hs' => by rw [h] at hs'; cases hs')
+        have := sig_agree (effD false cfg r) hcore'.prereq .nwTos
+        rw [show Fld.nwTos.bit = Spec.W_NW_TOS from rfl, hs] at this
+        simpa using this
+      have hcore' := core_effD false hr (fun _ hs' => by rw [h] at hs'; cases hs')
+      rw [accepts_tos_irrelevant _ _ hw]
+      exact wire_accepts _ _ _ hcore'.prereq hcore'.tos (agree_mapTos _ p port hp)
+  · simp only [if_true]
+    have idem : ∀ m : OfMatch, dscpA (dscpA m) = dscpA m := by
+      intro m; unfold dscpA
+      have : m.nwTos / 4 * 4 / 4 * 4 = m.nwTos / 4 * 4 := by omega
+      simp [this]
+    rw [idem, ← fromHeaders_mapTos]
+    rw [hd] at hcore
+    exact wire_accepts _ _ _ hcore.prereq hcore.tos (agree_mapTos _ p port hp)
 
 /-- hypotheses on the match of a statistics request -/
 structure StatsOk (cfg : Cfg) (m : OfMatch) : Prop where
   prereq : cfg.mv.prereqExact = false → PrereqExact m
-  tos : m.nwTos % 4 = 0
+  tos : cfg.tosDscp = false → Spec.significant m Spec.W_NW_TOS = true → m.nwTos % 4 = 0
   /-- unrepaired C04-3 only: the fields the standard ignores are wildcarded already -/
   canon : cfg.statsUnwire = false → ofWirePlain m = cfg.mv.ofWire m
 
@@ -155,23 +247,44 @@ theorem pre_ofWirePlain (v : Variant) (m : OfMatch) : v.pre (ofWirePlain m) = of
     normalize_testBit _ _ (Fld.bit_range _)
   simp only [Variant.pre, ofWirePlain, Variant.effDlType, Variant.effNwProto, h4, h5]
 
-/-- the match object of a statistics request is, for the non-strict test, `ofWire` of the normalised request -/
-theorem stats_same (cfg : Cfg) (m : OfMatch) (h : StatsOk cfg m) (c : Bool) (b : OfMatch) :
-    matchesWith c (statsMatch cfg m) b = matchesWith c (ofWire (cfg.mv.pre m)) b := by
+/-- the match object of a statistics request is, for every test, `ofWire` of the request with wildcarded prerequisites cleared -/
+theorem stats_sameV (cfg : Cfg) (m : OfMatch) (h : StatsOk cfg m) : SameViews (statsMatch cfg m) (ofWire (cfg.mv.pre m)) := by
   unfold statsMatch
   cases hs : cfg.statsUnwire
   · simp only [Bool.false_eq_true, if_false]
-    rw [h.canon hs, Variant.ofWire_left]
+    rw [h.canon hs]; exact vofWire_same cfg.mv m
   · simp only [if_true]
-    rw [Variant.ofWire_left, pre_ofWirePlain, ofWire_ofWirePlain]
+    have := vofWire_same cfg.mv (ofWirePlain m)
+    rw [pre_ofWirePlain, ofWire_ofWirePlain] at this
+    exact this
 
 theorem stats_subsumes (cfg : Cfg) (m b : OfMatch) (hm : StatsOk cfg m) (hb : WireOk cfg b) :
-    matchesWith true (statsMatch cfg m) (rxMatch cfg b) = subsumes m b := by
-  rw [stats_same cfg m hm, (rx_same cfg b).matchesWith_right,
-    code_subsumes (cfg.mv.pre m) (eff cfg b) (Variant.prereq_pre cfg.mv m hm.prereq) (core_eff hb).prereq hm.tos (core_eff hb).tos
-      (core_eff hb).width, subsumes_eff_right, Variant.subsumes_pre_left]
+    matchW cfg true (statsMatch cfg m) (rxMatch cfg b) = subsumes m b := by
+  have hpm := Variant.prereq_pre cfg.mv m hm.prereq
+  have hsig : Spec.significant (cfg.mv.pre m) Spec.W_NW_TOS = Spec.significant m Spec.W_NW_TOS := Variant.significant_pre cfg.mv m _
+  have hL : SameViews (if cfg.tosDscp then dscpA (statsMatch cfg m) else statsMatch cfg m)
+      (ofWire (tosNorm cfg.tosDscp (cfg.mv.pre m))) := by
+    have h1 : SameViews (if cfg.tosDscp then dscpA (statsMatch cfg m) else statsMatch cfg m)
+        (if cfg.tosDscp then dscpA (ofWire (cfg.mv.pre m)) else ofWire (cfg.mv.pre m)) := by
+      cases cfg.tosDscp
+      · exact stats_sameV cfg m hm
+      · exact (stats_sameV cfg m hm).dscpA
+    exact h1.trans (tos_same _ _ hpm)
+  have hcore := core_eff hb
+  unfold matchW
+  rw [dscp_eq, dscp_eq, hL.matchesWith_left, (rx_sameD cfg.tosDscp cfg b hb.prereq).matchesWith_right,
+    code_subsumes _ _ (prereq_tosNorm _ _ hpm) hcore.prereq
+      (tosNorm_tos4 _ _ (by rw [hsig]; exact hm.tos)) hcore.tos hcore.width]
+  rw [Bool.eq_iff_iff, subsumes_forall, subsumes_forall]
+  simp only [matchHdr_tosNorm, Variant.matchHdr_pre, matchHdr_effD]
 
 /-! ## invariant and hypotheses -/
+
+/-- the actions the model follows: no `output:TABLE` (the datapath would look the packet up again: not modelled), and where an
+    action sends the packet to the controller the list consists of outputs only (so the stored packet is the one that came in) -/
+def actsOk (actions : List Action) : Bool :=
+  !actions.any (outputsTo OFPP_TABLE) &&
+  (!actions.any (outputsTo OFPP_CONTROLLER) || actions.all (fun a => match a with | .output _ _ => true | .other _ _ => false))
 
 structure EntryOk (cfg : Cfg) (e : FEntry) : Prop where
   /-- the stored match object is what the flow-mod path made of the transmitted match -/
@@ -185,17 +298,20 @@ structure Inv (s : State) : Prop where
   ok : ∀ e ∈ s.table, EntryOk s.cfg e
   bounded : s.table.length ≤ s.maxEntries
 
-/-- a flow-mod as a controller sends it: regular match, 16-bit priority -/
+/-- a flow-mod as a controller sends it: regular match, 16-bit priority, actions the model follows -/
 structure MsgOk (cfg : Cfg) (fm : FlowModMsg) : Prop where
   mok : WireOk cfg fm.mtch
   prio : fm.priority ≤ 0xffff
+  acts : actsOk fm.actions = true
 
-/-- hypotheses on one event of a history -/
-def OpOk (cfg : Cfg) : Op → Prop
-  | .flowMod fm => MsgOk cfg fm
-  | .packet p _ _ => cfg.mv.regular p = true ∧ pktTos p % 4 = 0
-  | .flowStats m _ => StatsOk cfg m
-  | .aggStats m _ => StatsOk cfg m
+/-- hypotheses on one event of a history, in the state it is applied to: a frame's ECN bits matter only without repair D36 and only
+    when some installed flow compares the ToS byte -/
+def OpOk (s : State) : Op → Prop
+  | .flowMod fm => MsgOk s.cfg fm
+  | .packet p _ _ => s.cfg.mv.regular p = true ∧
+      (s.cfg.tosDscp = true ∨ pktTos p % 4 = 0 ∨ ∀ e ∈ s.table, Spec.significant e.data.wire Spec.W_NW_TOS = false)
+  | .flowStats m _ => StatsOk s.cfg m
+  | .aggStats m _ => StatsOk s.cfg m
   | .advance _ => True
   | .sweep => True
 
@@ -426,7 +542,7 @@ theorem addBase_abs_modify (s : State) (fm : FlowModMsg) (strict : Bool) (hc : f
   simp [not_same_of_not_selected fm.mtch fm.priority strict f (by simpa using this)]
 
 theorem overlap_abs (s : State) (fm : FlowModMsg) (hi : Inv s) (hm : MsgOk s.cfg fm) (he : fm.flags.testBit FF_EMERG = false) :
-    overlapScan s.cfg.key (s.cfg.key (mkEntry s.cfg s.now fm)) (rxMatch s.cfg fm.mtch) s.table =
+    overlapScan s.cfg (s.cfg.key (mkEntry s.cfg s.now fm)) (rxMatch s.cfg fm.mtch) s.table =
       (abs s).flows.any (fun g => g.rank == (newFlow s.now fm).rank && overlaps g.mtch fm.mtch) := by
   rw [overlapScan_sorted _ _ _ _ hi.sorted]
   apply any_map_abs
@@ -449,7 +565,7 @@ theorem flowModAdd_refines (s : State) (fm : FlowModMsg) (hi : Inv s) (hm : MsgO
   · have hE' : fm.flags.testBit FF_EMERG = false := by simpa using hE
     rw [if_neg hE, if_neg hE]
     have hov : (fm.flags.testBit FF_CHECK_OVERLAP &&
-        overlapScan s.cfg.key (s.cfg.key (mkEntry s.cfg s.now fm)) (rxMatch s.cfg fm.mtch) s.table) =
+        overlapScan s.cfg (s.cfg.key (mkEntry s.cfg s.now fm)) (rxMatch s.cfg fm.mtch) s.table) =
         (fm.flags.testBit FF_CHECK_OVERLAP &&
           (abs s).flows.any (fun g => g.rank == (newFlow (abs s).now fm).rank && overlaps g.mtch fm.mtch)) := by
       cases hC : fm.flags.testBit FF_CHECK_OVERLAP
@@ -538,25 +654,54 @@ theorem account_abs (t : Table EData) (acc : FEntry → Bool) (hit : SFlow → B
     · simp [h2]
 
 theorem accepts_abs {cfg : Cfg} (e : FEntry) (he : EntryOk cfg e) (p : PHdr) (port : Nat) (hr : cfg.mv.regular p = true)
-    (hpt : pktTos p % 4 = 0) :
-    e.accepts (cfg.mv.fromPacket p port) = matchHdr (absEntry e).mtch (headers p port) := by
-  unfold Entry.accepts
+    (hpt : cfg.tosDscp = true ∨ pktTos p % 4 = 0 ∨ Spec.significant e.data.wire Spec.W_NW_TOS = false) :
+    accepts cfg (pktMatch cfg p port) e = matchHdr (absEntry e).mtch (headers p port) := by
+  unfold accepts
   rw [he.wf]
   exact rx_accepts cfg e.data.wire he.mok p port hr hpt
 
+theorem ctlCount_eq (a : List Action) : ctlCount a = toController a := by
+  unfold ctlCount toController
+  congr 2
+
+theorem ctlSend_abs (pool : BufPool.Pool BFrame) (f : BFrame) (n : Nat) :
+    (ctlSend pool f n).1 = (sendToController pool f n).1 ∧ (ctlSend pool f n).2.map absOut = (sendToController pool f n).2 := by
+  induction n generalizing pool with
+  | zero => exact ⟨rfl, rfl⟩
+  | succ n ih =>
+    obtain ⟨h1, h2⟩ := ih (BufPool.alloc pool f).1
+    simp only [ctlSend, sendToController, List.map_cons, h1, h2]
+    exact ⟨trivial, rfl⟩
+
+theorem hitActions_abs (t : Table EData) (acc : FEntry → Bool) (hit : SFlow → Bool) (h : ∀ e ∈ t, acc e = hit (absEntry e)) :
+    hitActions acc t = actionsOfHit hit (t.map absEntry) := by
+  unfold hitActions actionsOfHit
+  induction t with
+  | nil => rfl
+  | cons e r ih =>
+    have h1 := h e (by simp)
+    simp only [List.find?_cons, List.map_cons, ← h1]
+    cases acc e
+    · exact ih (fun x hx => h x (by simp [hx]))
+    · rfl
+
 theorem packetStep_refines (s : State) (p : PHdr) (port len : Nat) (hi : Inv s) (hr : s.cfg.mv.regular p = true)
-    (hpt : pktTos p % 4 = 0) :
+    (hpt : s.cfg.tosDscp = true ∨ pktTos p % 4 = 0 ∨ ∀ e ∈ s.table, Spec.significant e.data.wire Spec.W_NW_TOS = false) :
     abs (packetStep s p port len).1 = (Spec.receive (abs s) p port len).1 ∧
     (packetStep s p port len).2.map absOut = (Spec.receive (abs s) p port len).2 := by
   unfold packetStep Spec.receive
-  have hacc : ∀ e ∈ s.table, Entry.accepts (s.cfg.mv.fromPacket p port) e = matchHdr (absEntry e).mtch (headers p port) :=
-    fun e he => accepts_abs e (hi.ok e he) p port hr hpt
+  have hacc : ∀ e ∈ s.table, accepts s.cfg (pktMatch s.cfg p port) e = matchHdr (absEntry e).mtch (headers p port) :=
+    fun e he => accepts_abs e (hi.ok e he) p port hr (hpt.imp id (fun h => h.imp id (fun h => h e he)))
   have hany := any_map_abs s.table _ (fun f : SFlow => matchHdr f.mtch (headers p port)) hacc
   have hflows : (abs s).flows = s.table.map absEntry := rfl
-  simp only [hany, hflows]
+  have hbuf : (abs s).buffers = s.pool := rfl
+  simp only [hany, hflows, hbuf]
   split
-  · refine ⟨?_, rfl⟩
-    simp only [abs]
+  · rw [hitActions_abs s.table _ (fun f : SFlow => matchHdr f.mtch (headers p port)) hacc, ctlCount_eq]
+    obtain ⟨c1, c2⟩ := ctlSend_abs s.pool { hdr := p, len := len, inPort := port }
+      (toController (actionsOfHit (fun f : SFlow => matchHdr f.mtch (headers p port)) (s.table.map absEntry)))
+    refine ⟨?_, c2⟩
+    simp only [abs, c1]
     congr 1
     exact account_abs _ _ _ hacc _ _
   · exact ⟨rfl, rfl⟩
@@ -629,7 +774,9 @@ theorem bufferUse_refines (s : State) (id : Nat) (a : List Action) :
       simp only [if_neg h0, Option.join, Option.getD_some]
       cases hs : s.pool.slots[id - 1] with
       | none => simp [hs, hcond, abs, absOut]
-      | some f => simp [hs, abs, absOut]
+      | some f =>
+        obtain ⟨c1, c2⟩ := ctlSend_abs s.pool f (toController a)
+        simp [hs, abs, absOut, ctlCount_eq, c1, c2]
 
 theorem flowModHandler_refines (s : State) (fm : FlowModMsg) (hi : Inv s) (hm : MsgOk s.cfg fm) :
     abs (flowModHandler s fm).1 = (Spec.command (abs s) fm).1 ∧
@@ -664,13 +811,12 @@ theorem flowModStep_refines (s : State) (fm : FlowModMsg) (hi : Inv s) (hm : Msg
 
 /-! ## one step, the invariant, histories -/
 
-theorem step_refines (s : State) (op : Op) (hi : Inv s) (ho : OpOk s.cfg op) :
+theorem step_refines (s : State) (op : Op) (hi : Inv s) (ho : OpOk s op) :
     abs (step s op).1 = (Spec.step (abs s) op).1 ∧ (step s op).2.map absOut = (Spec.step (abs s) op).2 := by
   cases op with
   | flowMod fm => exact flowModStep_refines s fm hi ho
   | packet p port len =>
-    have h : s.cfg.mv.regular p = true ∧ pktTos p % 4 = 0 := ho
-    exact packetStep_refines s p port len hi h.1 h.2
+    exact packetStep_refines s p port len hi ho.1 ho.2
   | advance dt => exact ⟨rfl, rfl⟩
   | sweep => exact sweep_refines s hi
   | flowStats m outPort =>
@@ -746,7 +892,7 @@ theorem entryOk_of_kept (s : State) (e' : FEntry) (hk : Kept s e') (hok : ∀ e 
   have := hok e he
   exact ⟨by rw [hm, hw]; exact this.wf, by rw [hw]; exact this.mok, by rw [hp]; exact this.prio, by rw [hf]; exact this.noEmerg⟩
 
-theorem step_inv (s : State) (op : Op) (hi : Inv s) (ho : OpOk s.cfg op) : Inv (step s op).1 := by
+theorem step_inv (s : State) (op : Op) (hi : Inv s) (ho : OpOk s op) : Inv (step s op).1 := by
   refine ⟨by rw [step_cfg]; exact step_sorted s op hi.sorted, ?_, step_bounded s op hi.bounded⟩
   rw [step_cfg]
   intro e' he'
@@ -756,22 +902,65 @@ theorem step_inv (s : State) (op : Op) (hi : Inv s) (ho : OpOk s.cfg op) : Inv (
     exact ⟨this.wf, this.mok, this.prio, this.noEmerg⟩
   · exact mkEntry_ok s.cfg s.now fm ho hE
 
-/-- every event of the history satisfies its hypotheses (the code variant is constant along a history) -/
-def HistOk (cfg : Cfg) (ops : List Op) : Prop := ∀ op ∈ ops, OpOk cfg op
+/-- every event of the history satisfies its hypotheses in the state it is applied to -/
+def HistOk (s : State) : List Op → Prop
+  | [] => True
+  | op :: ops => OpOk s op ∧ HistOk (step s op).1 ops
 
-theorem run_refines (s : State) (ops : List Op) (hi : Inv s) (h : HistOk s.cfg ops) :
+theorem run_refines (s : State) (ops : List Op) (hi : Inv s) (h : HistOk s ops) :
     abs (run s ops).1 = (Spec.run (abs s) ops).1 ∧
     (run s ops).2.map (fun os => os.map absOut) = (Spec.run (abs s) ops).2 ∧ Inv (run s ops).1 := by
   induction ops generalizing s with
   | nil => exact ⟨rfl, rfl, hi⟩
   | cons op ops ih =>
-    have ho : OpOk s.cfg op := h op (by simp)
+    obtain ⟨ho, hrest⟩ := h
     obtain ⟨r1, r2⟩ := step_refines s op hi ho
-    obtain ⟨i1, i2, i3⟩ := ih (step s op).1 (step_inv s op hi ho)
-      (fun o hm => by rw [step_cfg]; exact h o (by simp [hm]))
+    obtain ⟨i1, i2, i3⟩ := ih (step s op).1 (step_inv s op hi ho) hrest
     simp only [run, Spec.run, List.map_cons]
     rw [← r1, ← r2]
     exact ⟨i1, by rw [i2], i3⟩
+
+/-! ## the match a message carries -/
+
+/-- the 40 bytes of match a flow-removed / flow-stats message carries (`match.pack()`) denote exactly the packets of the flow the
+    message is about (the transmitted match the entry was created from) -/
+def FaithfulOut : Out → Prop
+  | .flowRemoved m => ∀ h : Headers, matchHdr m.packed h = matchHdr m.wire h
+  | .flowStats l => ∀ f ∈ l, ∀ h : Headers, matchHdr f.packed h = matchHdr f.wire h
+  | _ => True
+
+/-- `pack()` of the match object of an installed flow is, for the standard, the transmitted match -/
+theorem packed_faithful {cfg : Cfg} (e : FEntry) (he : EntryOk cfg e) (h : Headers) :
+    matchHdr (packPlain e.mtch) h = matchHdr e.data.wire h := by
+  rw [he.wf, (rx_same cfg e.data.wire).packPlain, packPlain_matchHdr _ (prereq_eff0 he.mok.prereq), matchHdr_eff0]
+
+theorem step_outs_faithful (s : State) (op : Op) (hi : Inv s) : ∀ o ∈ (step s op).2, FaithfulOut o := by
+  intro o ho
+  have := step_outs_table s op o ho
+  cases o with
+  | flowRemoved m =>
+    obtain ⟨e, he, r, rfl⟩ := this
+    exact fun h => packed_faithful e (hi.ok e he) h
+  | flowStats l =>
+    intro f hf h
+    obtain ⟨e, he, rfl⟩ := this f hf
+    exact packed_faithful e (hi.ok e he) h
+  | error t c => trivial
+  | packetIn a b c => trivial
+  | release a b c => trivial
+  | aggStats a b c => trivial
+
+theorem run_outs_faithful (s : State) (ops : List Op) (hi : Inv s) (h : HistOk s ops) :
+    ∀ os ∈ (run s ops).2, ∀ o ∈ os, FaithfulOut o := by
+  induction ops generalizing s with
+  | nil => intro os hos; simp [run] at hos
+  | cons op ops ih =>
+    obtain ⟨ho, hrest⟩ := h
+    intro os hos
+    simp only [run, List.mem_cons] at hos
+    rcases hos with rfl | hos
+    · exact step_outs_faithful s op hi
+    · exact ih _ (step_inv s op hi ho) hrest os hos
 
 /-! ## at most one entry per (match, priority) -/
 
@@ -841,12 +1030,33 @@ theorem addBase_fresh_add (s : State) (fm : FlowModMsg) (hc : fm.cmd = .add) :
   apply sameKey_symm
   exact he.2
 
-/-- a match that encompasses itself… both tests of `strictMatch` hold only if the non-strict test holds -/
-theorem matchesWith_of_strict (cfg : Cfg) (entry m : OfMatch) (h : strictMatch cfg entry m = true) : m.matchesWith true entry = true := by
+theorem eqMatch_dscp (cfg : Cfg) {a b : OfMatch} (h : eqMatch a b = true) : eqMatch (dscp cfg a) (dscp cfg b) = true := by
+  rw [dscp_eq, dscp_eq]
+  cases cfg.tosDscp
+  · exact h
+  · simp only [if_true]
+    obtain ⟨hw, hv, hs, hd⟩ := eqMatch_parts h
+    have hwild : ∀ f, a.wild f = b.wild f := fun f => by simp [OfMatch.wild, hw]
+    apply eqMatch_of_parts (a := dscpA a) (b := dscpA b) hw
+    · intro f
+      have := hv f
+      unfold OfMatch.view at this ⊢
+      have e1 : (dscpA a).wild f = a.wild f := rfl
+      have e2 : (dscpA b).wild f = b.wild f := rfl
+      rw [e1, e2, ← hwild f] at *
+      cases hq : a.wild f
+      · simp only [hq, Bool.false_eq_true, if_false, Option.some.injEq] at this ⊢
+        cases f <;> first | exact this | (show a.nwTos / 4 * 4 = b.nwTos / 4 * 4; rw [show a.nwTos = b.nwTos from this])
+      · simp
+    · exact hs
+    · exact hd
+
+/-- both tests of `strictMatch` hold only if the non-strict test holds -/
+theorem matchesWith_of_strict (cfg : Cfg) (entry m : OfMatch) (h : strictMatch cfg entry m = true) : matchW cfg true m entry = true := by
   unfold strictMatch at h
   cases hs : cfg.strictMutual
   · simp only [hs, Bool.false_eq_true, if_false] at h
-    exact matchesWith_of_eqMatch true (eqMatch_symm h)
+    exact matchesWith_of_eqMatch true (eqMatch_dscp cfg (eqMatch_symm h))
   · simp only [hs, if_true, Bool.and_eq_true] at h
     exact h.1
 
@@ -927,7 +1137,8 @@ theorem run_uniq (s : State) (ops : List Op) (hu : Uniq s.cfg s.table) : Uniq (r
 instance (r : OfMatch) : Decidable (PrereqExact r) := by unfold PrereqExact; exact inferInstance
 
 theorem wireOk_iff (cfg : Cfg) (r : OfMatch) : WireOk cfg r ↔
-    ((cfg.mv.prereqExact = false → PrereqExact r) ∧ r.nwTos % 4 = 0 ∧
+    ((cfg.mv.prereqExact = false → PrereqExact r) ∧
+     (cfg.tosDscp = false ∨ cfg.strictMutual = false → Spec.significant r Spec.W_NW_TOS = true → r.nwTos % 4 = 0) ∧
      (cfg.mv.exactSig = false → Spec.exactSig r = true → Spec.exact r = true ∧ r.dlType = 0x0800 ∧ isL4Proto r.nwProto = true) ∧
      (cfg.maskUndefined = false → r.wildcards < 2 ^ 22) ∧
      (cfg.strictMutual = false → Spec.srcIgn r < 32 → r.nwSrc % 2 ^ Spec.srcIgn r = 0) ∧
@@ -937,24 +1148,31 @@ theorem wireOk_iff (cfg : Cfg) (r : OfMatch) : WireOk cfg r ↔
 instance (cfg : Cfg) (r : OfMatch) : Decidable (WireOk cfg r) := decidable_of_iff _ (wireOk_iff cfg r).symm
 
 theorem statsOk_iff (cfg : Cfg) (m : OfMatch) : StatsOk cfg m ↔
-    ((cfg.mv.prereqExact = false → PrereqExact m) ∧ m.nwTos % 4 = 0 ∧ (cfg.statsUnwire = false → ofWirePlain m = cfg.mv.ofWire m)) :=
+    ((cfg.mv.prereqExact = false → PrereqExact m) ∧
+     (cfg.tosDscp = false → Spec.significant m Spec.W_NW_TOS = true → m.nwTos % 4 = 0) ∧
+     (cfg.statsUnwire = false → ofWirePlain m = cfg.mv.ofWire m)) :=
   ⟨fun h => ⟨h.prereq, h.tos, h.canon⟩, fun ⟨a, b, c⟩ => ⟨a, b, c⟩⟩
 
 instance (cfg : Cfg) (m : OfMatch) : Decidable (StatsOk cfg m) := decidable_of_iff _ (statsOk_iff cfg m).symm
 
-theorem msgOk_iff (cfg : Cfg) (fm : FlowModMsg) : MsgOk cfg fm ↔ (WireOk cfg fm.mtch ∧ fm.priority ≤ 0xffff) :=
-  ⟨fun h => ⟨h.mok, h.prio⟩, fun ⟨a, b⟩ => ⟨a, b⟩⟩
+theorem msgOk_iff (cfg : Cfg) (fm : FlowModMsg) : MsgOk cfg fm ↔ (WireOk cfg fm.mtch ∧ fm.priority ≤ 0xffff ∧ actsOk fm.actions = true) :=
+  ⟨fun h => ⟨h.mok, h.prio, h.acts⟩, fun ⟨a, b, c⟩ => ⟨a, b, c⟩⟩
 
 instance (cfg : Cfg) (fm : FlowModMsg) : Decidable (MsgOk cfg fm) := decidable_of_iff _ (msgOk_iff cfg fm).symm
 
-instance (cfg : Cfg) : (op : Op) → Decidable (OpOk cfg op)
-  | .flowMod fm => inferInstanceAs (Decidable (MsgOk cfg fm))
-  | .packet p _ _ => inferInstanceAs (Decidable (cfg.mv.regular p = true ∧ pktTos p % 4 = 0))
-  | .flowStats m _ => inferInstanceAs (Decidable (StatsOk cfg m))
-  | .aggStats m _ => inferInstanceAs (Decidable (StatsOk cfg m))
+instance (s : State) : (op : Op) → Decidable (OpOk s op)
+  | .flowMod fm => inferInstanceAs (Decidable (MsgOk s.cfg fm))
+  | .packet p _ _ => inferInstanceAs (Decidable (s.cfg.mv.regular p = true ∧
+      (s.cfg.tosDscp = true ∨ pktTos p % 4 = 0 ∨ ∀ e ∈ s.table, Spec.significant e.data.wire Spec.W_NW_TOS = false)))
+  | .flowStats m _ => inferInstanceAs (Decidable (StatsOk s.cfg m))
+  | .aggStats m _ => inferInstanceAs (Decidable (StatsOk s.cfg m))
   | .advance _ => isTrue trivial
   | .sweep => isTrue trivial
 
-instance (cfg : Cfg) (ops : List Op) : Decidable (HistOk cfg ops) := by unfold HistOk; exact inferInstance
+instance instDecidableHistOk : (s : State) → (ops : List Op) → Decidable (HistOk s ops)
+  | _, [] => isTrue trivial
+  | s, op :: ops =>
+    have := instDecidableHistOk (step s op).1 ops
+    inferInstanceAs (Decidable (OpOk s op ∧ HistOk (step s op).1 ops))
 
 end Pox.FlowMod
